@@ -10,6 +10,10 @@
      Python records what happened - it computes no expectation.
   3. TLC (spec/DevFilterTrace.tla) judges the outcome table against clauses a..d of DESIGN App. A, and
      - separately - against the code model (drift, never a verdict).
+  4. Life cycle (spec/MC_DevFilterLife.tla): the same protocol object loses its connection and is connected again
+     to a transport reporting the same / another / no gateway id.  TLC shows the code model stateless over these
+     histories; level `proto_recon` walks real PortProtocols through every ordered pair of connections, offering
+     the rows in every phase; DevFilterTrace judges each phase under the configuration in force (InForce, J24).
 """
 from __future__ import annotations
 
@@ -18,6 +22,7 @@ import os
 import shutil
 import tempfile
 import time
+from concurrent.futures import ThreadPoolExecutor
 
 from harness import ext_c10 as X
 from harness import tlc
@@ -25,6 +30,7 @@ from harness.report import Check, main_wrapper
 
 PID = "C10"
 MAX_KEYS = 24
+TABLE: dict = {}     # the row table TLC exported (cfgs, by_cfg): the canary builds a correct outcome table from it
 
 
 def _workers(tier: str) -> int:
@@ -54,6 +60,21 @@ def model_check(cfgfile: str, workers: int, stats: dict) -> tuple[list[dict], li
     return data["cfgs"], data["rows"]
 
 
+def model_check_life(tier: str, workers: int) -> list[dict]:
+    """The life cycle of the filter's state (connection_made / connection_lost) in the model: stateless, and - the
+    instance's self-test - no longer so once the active gateway is appended to the include list."""
+    out = []
+    for cfgfile, expect in (("MC_DevFilterLife_full.cfg" if tier == "thorough" else "MC_DevFilterLife.cfg", []),
+                            ("MC_DevFilterLife_x.cfg", ["Stateless"])):
+        r = tlc.run_tlc("MC_DevFilterLife", cfgfile, workers=workers, timeout=900)
+        if r.errors or r.violated != expect or (not expect and not r.ok):
+            raise tlc.MachineryFailure(f"{cfgfile}: violated={r.violated} (expected {expect}) errors={r.errors[:2]}\n{r.out[-2000:]}")
+        invs = [ln.split()[1] for ln in open(tlc.SPEC / cfgfile) if ln.startswith("INVARIANT")]
+        out.append({"cfg": cfgfile, "distinct_states": r.distinct, "generated": r.states, "invariants": invs,
+                    "violated_as_expected": r.violated, "wall_s": round(r.wall_s, 1)})
+    return out
+
+
 def group_rows(cfgs: list[dict], rows: list[list]) -> dict[int, list[dict]]:
     out: dict[int, list[dict]] = {}
     for ci, s, d, sh, dr, drop in rows:
@@ -65,7 +86,7 @@ def group_rows(cfgs: list[dict], rows: list[list]) -> dict[int, list[dict]]:
 
 # ----------------------------------------------------------------------------------------------
 def judge(items: list[dict], workers: int, mode: str) -> dict:
-    payload = [{"cfg": it["cfg"], "lvl": it["lvl"], "rows": it["rows"]} for it in items]
+    payload = [{"cfg": it["cfg"], "conns": it.get("conns", []), "lvl": it["lvl"], "rows": it["rows"]} for it in items]
     cfg = "DevFilterTrace.cfg" if mode == "clauses" else "DevFilterTrace_drift.cfg"
     return tlc.validate_batch("DevFilterTrace", payload, cfg=cfg, workers=workers, timeout=900, chunk=1500)
 
@@ -76,7 +97,7 @@ def all_failing_rows(items: list[dict], res: dict, workers: int, mode: str, limi
     for idx, _fail in res["rejects"][:limit]:
         it = items[idx]
         for k, row in enumerate(it["rows"]):
-            singles.append({"cfg": it["cfg"], "lvl": it["lvl"], "rows": [row]})
+            singles.append({"cfg": it["cfg"], "conns": it.get("conns", []), "lvl": it["lvl"], "rows": [row]})
             origin.append((idx, k))
     if not singles:
         return []
@@ -86,8 +107,13 @@ def all_failing_rows(items: list[dict], res: dict, workers: int, mode: str, limi
 
 def key_of(clause: str, it: dict, row: dict) -> str:
     c = it["cfg"]
-    return (f"{clause}|{it['lvl'].split('+')[0]}|{row['src']}>{row['dst']}|kl={int(c['kl'])}|bl={int(c['bl'])}"
-            f"|enf={int(c['enf'] and X.known_nonempty(c))}|act={c['act']}|gwb={int(c['gwb'])}")
+    key = (f"{clause}|{it['lvl'].split('+')[0]}|{row['src']}>{row['dst']}|kl={int(c['kl'])}|bl={int(c['bl'])}"
+           f"|enf={int(c['enf'] and X.known_nonempty(c))}|act={c['act']}|gwb={int(c['gwb'])}")
+    if it.get("conns"):     # the last step of the connection history: what the previous transport reported > what is now
+        made = [c["act"]] + [e for e in it["conns"] if e != "lost"]
+        down = it["conns"][-1] == "lost"
+        key += f"|recon={made[-1] if down else made[-2]}>{'down' if down else made[-1]}"
+    return key
 
 
 def canary(items: list[dict], workers: int) -> None:
@@ -96,10 +122,30 @@ def canary(items: list[dict], workers: int) -> None:
     obs = [it for it in items if not it["lvl"].startswith(("restore", "app"))]   # delivery is not observable in the restore path
     for it in (obs[0], obs[len(obs) // 2], obs[-1]):
         rows = [dict(r, delivered=not r["delivered"], written=not r["written"], refused=not r["refused"]) for r in it["rows"]]
-        bad.append({"cfg": it["cfg"], "lvl": it["lvl"], "rows": rows})
-    r = judge(bad, workers, "clauses")
-    if len(r["rejects"]) != len(bad):
-        raise tlc.MachineryFailure(f"canary: DevFilterTrace accepted a corrupted outcome table ({r['rejects']})")
+        bad.append({"cfg": it["cfg"], "conns": it.get("conns", []), "lvl": it["lvl"], "rows": rows})
+    # ... and a corrupted history.  Independent of what the code under test did: the outcomes are those the exported
+    # table (TLC's MustDrop) demands for "gwy, lost, foreign" - accepted as such, rejected once the record says the
+    # last connection was made to the other gateway id, or never made
+    good = []
+    if TABLE:
+        want = {"kl": True, "hgi": "no", "bl": True, "gwb": False, "enf": True, "act": "foreign", "ph": "none", "fgn": "none"}
+        ci = next(i for i, c in enumerate(TABLE["cfgs"]) if c == want)
+        rows = []
+        for row in TABLE["by_cfg"][ci]:
+            o = X._blank(row)
+            o.pop("exc")
+            o["delivered"], o["written"], o["refused"] = (row["dir"] == "rx" and not row["drop"],
+                                                          row["dir"] == "tx" and not row["drop"], row["dir"] == "tx" and row["drop"])
+            rows.append(o)
+        first = dict(want, act="gwy")
+        good.append({"cfg": first, "conns": ["lost", "foreign"], "lvl": "proto_recon", "rows": rows})
+        bad.append({"cfg": first, "conns": ["lost", "gwy"], "lvl": "proto_recon", "rows": rows})
+        bad.append({"cfg": first, "conns": ["lost"], "lvl": "proto_recon", "rows": rows})
+        bad.append({"cfg": first, "conns": [], "lvl": "proto_recon", "rows": rows})
+    r = judge(bad + good, workers, "clauses")
+    if [i for i, _ in r["rejects"]] != list(range(len(bad))):
+        raise tlc.MachineryFailure(f"canary: DevFilterTrace accepted a corrupted outcome table, or rejected a correct one "
+                                   f"({len(bad)} corrupted, then {len(good)} correct: {r['rejects']})")
 
 
 def report(chk: Check, items: list[dict], workers: int, stats: dict) -> None:
@@ -124,7 +170,11 @@ def report(chk: Check, items: list[dict], workers: int, stats: dict) -> None:
         what = (f"clause C10{clause} fails at level {it['lvl']}: {row['dir']} {row['src']}->{row['dst']} "
                 f"({row['shape']}, frame {X.frame_of(row, it['ids'])!r}) under {X.describe_cfg(it['cfg'], it['ids'])}: "
                 f"delivered={row['delivered']} newdevs={row['newdevs']} refused={row['refused']} written={row['written']}")
+        if it.get("conns"):
+            what += (f"; active_gwy is that of the first connection, what happened to the connection since (the new "
+                     f"transport's report): {it['cfg']['act']} > " + " > ".join(it["conns"]))
         chk.violation(key, what, {"cfg": it["cfg"], "lvl": it["lvl"], "ids": it["ids"], "opts": it.get("opts", {}),
+                                  "conns": it.get("conns", []),
                                   "row": {k2: row[k2] for k2 in ("src", "dst", "shape", "dir")},
                                   "observed": row, "clause": clause})
     if nkeys > MAX_KEYS:
@@ -149,6 +199,67 @@ def report(chk: Check, items: list[dict], workers: int, stats: dict) -> None:
 
 
 # ----------------------------------------------------------------------------------------------
+# closed walks over what successive transports report as the active gateway.  WALK_ALL: every ordered pair, "the same
+# again" included; WALK_DISTINCT: every ordered pair of different reports (Eulerian circuits: any rotation is one too);
+# the two triangles: the six ordered pairs of different reports between them, three each
+WALK_ALL = ["gwy", "gwy", "foreign", "foreign", "none", "none", "gwy", "none", "foreign"]
+WALK_DISTINCT = ["gwy", "foreign", "none", "gwy", "none", "foreign"]
+TRIANGLES = (["gwy", "foreign", "none"], ["gwy", "none", "foreign"])
+ACTS = ("gwy", "foreign", "none")
+
+
+def recon_walk(kind: str, k: int, odd: int = 0) -> list[str]:
+    """A closed walk [first report, later reports ...]: the circuit of its kind (`odd` chooses the triangle), rotated by k."""
+    circ = {"all": WALK_ALL, "distinct": WALK_DISTINCT, "triangle": TRIANGLES[odd % 2]}[kind]
+    k %= len(circ)
+    rot = circ[k:] + circ[:k]
+    return rot + [rot[0]]
+
+
+def transitions(walks: list[list[str]]) -> set[tuple[str, str]]:
+    return {p for w in walks for p in zip(w, w[1:])}
+
+
+def plan_recon(tier: str, cfgs: list[dict], by_cfg: dict[int, list[dict]]) -> list[dict]:
+    """One protocol object per combination of lists / enforcement, walked through a closed walk of connections (the
+    first report rotates with the combination).
+    Quick tier: a triangle of different reports - both directions, hence all six ordered pairs, meet every setting of
+    each list / enforcement dimension, but not every combination of them -, every (src, dst) pair once per direction
+    (the shape that carries a destination; `__a2` when there is none).
+    Thorough tier: every combination meets every ordered pair: the combinations that list the placeholder / the other
+    18: id walk the circuit of different reports with the quick tier's rows; the others the circuit that includes
+    "the same again" with every row, and once more through the public API (Gateway.stop() + start())."""
+    runs, k = [], 0
+    for ci, cfg in enumerate(cfgs):
+        if cfg["act"] != "gwy":     # the representative of its combination; the walk supplies the reports
+            continue
+        full = tier == "thorough" and cfg["ph"] == "none" and cfg["fgn"] == "none"
+        # (the triangle by the parity of the combination's settings: whatever one - or two - of them are fixed to,
+        # the others still bring both triangles)
+        odd = cfg["kl"] + ("no", "explicit", "implicit").index(cfg["hgi"]) + cfg["bl"] + cfg["gwb"] + cfg["enf"]
+        walk = recon_walk("all" if full else "distinct" if tier == "thorough" else "triangle", k, odd)
+        k += 1
+        rows = [r for r in by_cfg[ci] if full or r["shape"] != "a0a1_"]
+        runs.append({"lvl": "proto_recon", "cfg": dict(cfg, act=walk[0]), "rows": rows, "ids": X.IDS,
+                     "opts": {"walk": walk[1:]}})
+        if full:
+            runs.append({"lvl": "send_recon", "cfg": dict(cfg, act=walk[0]), "rows": rows, "ids": X.IDS,
+                         "opts": {"walk": walk[1:]}})
+    # the plan must deliver what its doc-string says
+    walks = lambda pred: [[r["cfg"]["act"]] + r["opts"]["walk"] for r in runs if r["lvl"] == "proto_recon" and pred(r["cfg"])]  # noqa: E731
+    need = {(a, b) for a in ACTS for b in ACTS if a != b}
+    for dim, vals in (("kl", (False, True)), ("hgi", ("no", "explicit", "implicit")), ("bl", (False, True)),
+                      ("gwb", (False, True)), ("enf", (False, True))):
+        for v in vals:
+            if not transitions(walks(lambda c: c[dim] == v)) >= need:
+                raise tlc.MachineryFailure(f"plan_recon: {dim}={v} does not meet every ordered pair of reports")
+    if tier == "thorough":
+        for r in runs:
+            if r["lvl"] == "proto_recon" and not transitions([[r["cfg"]["act"]] + r["opts"]["walk"]]) >= need:
+                raise tlc.MachineryFailure("plan_recon: a combination does not meet every ordered pair of reports")
+    return runs
+
+
 def plan(tier: str, cfgs: list[dict], by_cfg: dict[int, list[dict]], seed: int) -> list[dict]:
     """Which (configuration, level, ids, options) runs are made.  Every run covers *all* rows of its cfg."""
     runs = []
@@ -192,6 +303,7 @@ def plan(tier: str, cfgs: list[dict], by_cfg: dict[int, list[dict]], seed: int) 
                 runs.append({"lvl": "gateway", "cfg": cfg, "rows": by_cfg[ci], "ids": ids,
                              "opts": {"eavesdrop": bool(n % 2), "fresh": False}})
                 runs.append({"lvl": "send", "cfg": cfg, "rows": by_cfg[ci], "ids": ids})
+    runs += plan_recon(tier, cfgs, by_cfg)
     only = os.environ.get("VERIF_C10_LEVELS")       # development aid: restrict the levels that are run
     if only:
         runs = [r for r in runs if r["lvl"] in only.split(",")]
@@ -205,8 +317,11 @@ def main(tier: str, replay: str | None) -> None:
     if replay:
         return do_replay(replay, workers)
     stats: dict = {}
+    pool = ThreadPoolExecutor(1)
+    life = pool.submit(model_check_life, tier, workers)      # (a JVM of its own: runs while the rows are executed)
     cfgs, rows = model_check("MC_DevFilter_full.cfg" if tier == "thorough" else "MC_DevFilter.cfg", workers, stats)
     by_cfg = group_rows(cfgs, rows)
+    TABLE.update(cfgs=cfgs, by_cfg=by_cfg)
     runs = plan(tier, cfgs, by_cfg, chk.seed)
     t0 = time.time()
     items, skipped = X.execute_runs(runs)
@@ -215,6 +330,19 @@ def main(tier: str, replay: str | None) -> None:
                           "per_level": X.count_levels(items)}
     print(f"executed {stats['execution']['rows_executed']} rows on the real objects in {len(runs)} runs "
           f"({stats['execution']['wall_s']}s): {stats['execution']['per_level']}")
+    stats["mc"] += life.result()
+    pool.shutdown()
+    for m in stats["mc"][1:]:
+        print(f"TLC {m['cfg']}: {m['distinct_states']} states (configuration x connection history), "
+              + (f"{len(m['invariants'])} invariants hold" if not m["violated_as_expected"] else
+                 f"{m['violated_as_expected']} fails as it must") + f" ({m['wall_s']}s)")
+    recon = [it for it in items if it["lvl"] in ("proto_recon", "send_recon")]
+    stats["execution"]["reconnection"] = {
+        "protocol_objects": sum(1 for it in recon if not it["conns"]),
+        "phases": len(recon), "phases_connection_down": sum(1 for it in recon if it["conns"] and it["conns"][-1] == "lost"),
+        "transitions": sorted({f"{(it['conns'][-3] if len(it['conns']) > 2 else it['cfg']['act'])}>{it['conns'][-1]}"
+                               for it in recon if it["conns"] and it["conns"][-1] != "lost"}),
+        "longest_history": max((len(it["conns"]) for it in recon), default=0)}
     for m in sorted(set(X.LOOP_EXC))[:10]:
         chk.note(f"exception reached the event loop during a run (not a C10 clause): {m}")
     report(chk, items, workers, stats)
@@ -238,6 +366,7 @@ def main(tier: str, replay: str | None) -> None:
             "samples": samples, **stats,
         },
         assumptions=[
+            "a lost connection is connection_lost(None) on the protocol, a new one connection_made() by a new fake transport; while the connection is down packets are still offered (judged with no active gateway), commands are not",
             "ids are abstracted to nine roles; one concrete id per role (all 64 device types for the Listed/Unlisted roles in the thorough tier)",
             "when sending, 18:000730 denotes the gateway and is allowed even if the gateway's real id is block-listed (the statement leaves this open; resolved towards not alarming)",
             "J5: only frames equal to the refused command count; the 7FFF impersonation notice does not",
@@ -342,6 +471,9 @@ def do_replay(path: str, workers: int) -> None:
     run = {"lvl": rp["lvl"].split("+")[0], "cfg": rp["cfg"], "rows": [dict(rp["row"], drop=False)], "ids": rp["ids"],
            "opts": rp.get("opts", {})}
     items, skipped = X.execute_runs([run])
+    if rp.get("conns"):     # a life-cycle run yields one item per phase: the one whose history is the recorded one
+        items = [it for it in items if it.get("conns") == rp["conns"]]
+        print(f"  connection history: {rp['cfg']['act']} > " + " > ".join(rp["conns"]))
     print(f"replay {path}\n  configuration: {X.describe_cfg(rp['cfg'], rp['ids'])}\n  level: {rp['lvl']} opts={rp.get('opts')}")
     if not items or not items[0]["rows"]:
         print("  the row's frame does not decode in isolation any more - nothing to judge")
